@@ -78,6 +78,9 @@ type Case struct {
 	// RespHeaders: the transports are configured with response headers of their own (none of them
 	// Content-Type, which stays negotiated per request)
 	RespHeaders bool `json:"resp_headers,omitempty"`
+	// Limit: the servers have a complexity limit, and the cost of echo depends on its argument n
+	// (so on the request's variables)
+	Limit bool `json:"complexity_limit,omitempty"`
 }
 
 func hashOf(t string) string {
@@ -139,6 +142,10 @@ func (r Req) build() *http.Request {
 	return hr.Build()
 }
 
+// limitOn: every handler built while it is set has the complexity limit (the servers of one case
+// are all built the same way).
+var limitOn bool
+
 func newHandler(s *proj.Server, apq map[string]string, respHeaders bool) *handler.Server {
 	cfg := hsrv.Config{}
 	if respHeaders {
@@ -152,6 +159,11 @@ func newHandler(s *proj.Server, apq map[string]string, respHeaders bool) *handle
 		c.Add(context.Background(), k, v)
 	}
 	h.Use(extension.AutomaticPersistedQuery{Cache: c})
+	if limitOn {
+		// echo(n: $n) costs 3n: n = 1 and 2 stay within the limit, n = 3 does not
+		s.U.SetComplexity(map[string]univ.CSpec{"Query.echo": {B: 3}})
+		h.Use(extension.FixedComplexityLimit(8))
+	}
 	return h
 }
 
@@ -190,6 +202,11 @@ func check(c Case) *vfrun.Failure {
 	}
 	s := ss[0]
 	s.U.SetExec(univ.NewExec(plan.New(21))) // fallback; every request carries its own Exec
+	limitOn = c.Limit
+	defer func() { limitOn = false; s.U.SetComplexity(nil) }()
+	if c.Limit {
+		vfrun.Label("servers-with-complexity-limit")
+	}
 	long := newHandler(s, nil, c.RespHeaders)
 	if c.Goroutines <= 1 {
 		apq := map[string]string{}
@@ -303,6 +320,22 @@ func gen(concurrent bool) func(t *rapid.T) Case {
 			c.Goroutines = rapid.IntRange(2, 8).Draw(t, "goroutines")
 		}
 		c.RespHeaders = rapid.Bool().Draw(t, "respheaders")
+		c.Limit = rapid.IntRange(0, 2).Draw(t, "limit") == 0
+		if c.Limit {
+			// several requests for the same operation of the same text whose variables put it on
+			// either side of the limit
+			for i := range c.Requests {
+				if rapid.IntRange(0, 2).Draw(t, "costly") == 0 {
+					r := &c.Requests[i]
+					r.Text = rapid.SampledFrom([]int{0, 7}).Draw(t, "costlytext")
+					r.OpName, r.HasOpName = 1, true
+					r.Vars = rapid.SampledFrom([]int{0, 3, 4}).Draw(t, "costlyvars")
+					if extensionsPool[r.Ext] != "" && !strings.HasPrefix(extensionsPool[r.Ext], "{") {
+						r.Ext = 0
+					}
+				}
+			}
+		}
 		return c
 	}
 }
